@@ -275,6 +275,9 @@ func GenProg(t *rapid.T, cfg GenCfg) *ProgSpec {
 	p.Mode = rapid.SampledFrom(cfg.Modes).Draw(t, "mode")
 	p.ModeLate = rapid.IntRange(0, 3).Draw(t, "modelate") == 0
 	p.UnknownMode = rapid.SampledFrom(cfg.UnkModes).Draw(t, "unkmode")
+	if cfg.MixedUnknown && len(cfg.UnkModes) > 1 && rapid.IntRange(0, 5).Draw(t, "unklate") == 0 {
+		p.UnknownLate = 1 + rapid.SampledFrom(cfg.UnkModes).Draw(t, "unklatemode")
+	}
 	switch cfg.RequireOrder {
 	case 1:
 		p.RequireOrder = rapid.IntRange(0, 4).Draw(t, "ro") == 0
